@@ -1078,8 +1078,9 @@ def streams(rng, tier):
     quick = tier == "quick"
     for i in range(70 if quick else 1800):
         g.large(i if not quick else rng.randrange(10 ** 6))
-    for i in range(6 if quick else 90):
-        g.bigmatmul(i if not quick else rng.randrange(10 ** 6), 3 * 10 ** 6 if quick else 4 * 10 ** 7)
+    for i in range(12 if quick else 90):
+        # sequential i: the wide-result / fw-bw / batch-pattern combinations cycle deterministically, also in quick
+        g.bigmatmul(i, 3 * 10 ** 6 if quick else 4 * 10 ** 7)
     for i in range(16 if quick else 400):
         g.allpad(i if not quick else rng.randrange(10 ** 6))
     for i in range(40 if quick else 700):
